@@ -185,9 +185,19 @@ def run_shard(params, rec):
                     if not cnd:
                         continue
                     nb, ntxt, _ = rng.choice(cnd)
-                    jitter.vm.set_mem(o_, nb)
+                    cur_ = bytes(image[o_ - L.CODE:o_ - L.CODE + l_])
+                    dif_ = [x_ for x_ in range(l_) if cur_[x_] != nb[x_]]
+                    if rng.random() < 0.5:
+                        # only the bytes that change (patching an immediate / a displacement): the write may
+                        # start in the middle or on the last byte of the instruction
+                        jitter.vm.set_mem(o_ + dif_[0], nb[dif_[0]:dif_[-1] + 1])
+                        steps.append("write %x+%d..%d: %s -> %s" % (o_, dif_[0], dif_[-1], t_, ntxt))
+                        if dif_[0] > 0:
+                            rec.count("multi_write_starting_inside_an_instruction")
+                    else:
+                        jitter.vm.set_mem(o_, nb)
+                        steps.append("write %x: %s -> %s" % (o_, t_, ntxt))
                     image[o_ - L.CODE:o_ - L.CODE + l_] = nb
-                    steps.append("write %x: %s -> %s" % (o_, t_, ntxt))
                     if w < len(order) - 1:
                         k_ = rng.random()
                         if k_ < 0.65:
